@@ -1986,10 +1986,9 @@ pub mod sweep {
 /// itself published after revoking it).
 pub fn build_world_with_cheaters(spec: &WorldSpec, keep_images: bool, cheaters: Vec<usize>) -> Sim {
 	let n = spec.topo.nodes();
-	let cfg = spec.user_config();
 	let w = World::new(WorldCfg {
 		n,
-		configs: vec![cfg; n],
+		configs: spec.node_configs(n),
 		keep_images,
 		deferred_monitor: spec.deferred,
 		connect_style: connect_style_of(spec.connect_style),
@@ -2012,7 +2011,12 @@ pub fn build_world_with_cheaters(spec: &WorldSpec, keep_images: bool, cheaters: 
 		let want = v * spec.push_permille[i % spec.push_permille.len()] as u64;
 		let keep_sat = (v / 5).max(10_000);
 		let push = want.min((v - keep_sat) * 1000);
-		sim.open_channel(*a, *b, v, push);
+		if spec.chan_policies.is_empty() {
+			sim.open_channel(*a, *b, v, push);
+		} else {
+			let k = spec.chan_policies.len();
+			sim.open_channel_with(*a, *b, v, push, Some(spec.chan_policies[(2 * i) % k]), Some(spec.chan_policies[(2 * i + 1) % k]));
+		}
 	}
 	sim
 }
